@@ -278,6 +278,9 @@ const TWIN_SPECS: &[&str] = &[
     "type: anon map\ninitSize: 3\nminSize: 1\nmaxSize: 9\nvalueType:\n  a:\n    type: int\n    init: 3\n    scale: 2\n  b:\n    type: optional\n    initPresent: true\n    valueType:\n      type: enum\n      values: [u, v, w]\n      init: u\n",
     "type: variant\ninit: m\nm:\n  type: anon map\n  initSize: 2\n  valueType:\n    type: anon map\n    initSize: 1\n    valueType:\n      type: bool\n      init: true\nn:\n  type: array\n  size: 3\n  valueType:\n    type: real\n    init: 0.5\n    scale: 0.1\n    min: 0\n    max: 1\n",
     "p:\n  type: sub\n  q:\n    type: bool\n    init: false\n  r:\n    type: const\ns:\n  type: array\n  size: 4\n  valueType:\n    type: int\n    init: 0\n    scale: 5\n    min: -20\n    max: 20\n",
+    // resizable maps whose initial size and maximum size fall into different hash-table size classes
+    "type: anon map\ninitSize: 3\nmaxSize: 6\nvalueType:\n  type: real\n  init: 0.5\n  scale: 0.2\n",
+    "m:\n  type: anon map\n  initSize: 5\n  maxSize: 10\n  valueType:\n    type: int\n    init: 1\n    scale: 3\nk:\n  type: anon map\n  initSize: 6\n  minSize: 2\n  maxSize: 12\n  valueType:\n    type: bool\n    init: true\n",
 ];
 
 /// objective: a function of (value, seed) only - a hash of the canonical JSON text and the seed, mapped to a float;
@@ -313,7 +316,8 @@ pub fn gen_twin(rng: &mut Rng, thorough: bool, exe: &str) -> J {
         .args(["twin-child", &spec_idx.to_string(), &nc.to_string(), &sample_size.to_string(), &yields.to_string(), &budget.to_string(), if with_guess { "1" } else { "0" }])
         .output();
     let c: J = match out { Ok(o) => serde_json::from_slice(&o.stdout).unwrap_or(json!({"childError": String::from_utf8_lossy(&o.stderr).to_string()})), Err(e) => json!({"childError": e.to_string()}) };
-    // guess = the spec's own initial value must give the same run as no guess (C11's same-run clause, also a C09 input)
+    // guess = the spec's own initial value must give the same run as no guess (C11's same-run clause)
+    let d = twin_trace(spec_idx, nc, sample_size, yields, budget, !with_guess);
     let first_diff = |x: &J, y: &J| -> J {
         let (ex, ey) = (x["evals"].as_array().cloned().unwrap_or_default(), y["evals"].as_array().cloned().unwrap_or_default());
         for i in 0..ex.len().max(ey.len()) { if ex.get(i) != ey.get(i) { return json!({"index": i, "a": ex.get(i), "b": ey.get(i)}); } }
@@ -323,7 +327,8 @@ pub fn gen_twin(rng: &mut Rng, thorough: bool, exe: &str) -> J {
     let distinct_values = { let mut s: Vec<&str> = a["evals"].as_array().unwrap().iter().map(|e| e[2].as_str().unwrap()).collect(); s.sort(); s.dedup(); s.len() };
     json!({"mode": "twin", "specIdx": spec_idx, "nc": nc, "sampleSize": sample_size, "yields": yields, "budget": budget, "withGuess": with_guess,
            "nEvals": a["evals"].as_array().map(|x| x.len()), "distinctValues": distinct_values,
-           "sameInProcess": a == b, "sameCrossProcess": a == c,
+           "sameInProcess": a == b, "sameCrossProcess": a == c, "sameGuessOrNot": a == d,
+           "diffGuessOrNot": first_diff(&a, &d),
            "diffInProcess": first_diff(&a, &b), "diffCrossProcess": first_diff(&a, &c),
            "ids": a["evals"].as_array().unwrap().iter().map(|e| e[1].clone()).collect::<Vec<_>>(),
            "seeds": a["evals"].as_array().unwrap().iter().map(|e| e[0].clone()).collect::<Vec<_>>(),
